@@ -247,6 +247,79 @@ TABLE = [
  ("C18-topk-export-trailing-newline", "C18", "/tmp/wt4-C18", 2, ["C18", "C10"],
   "TopK.Export uses json.Encoder (SetEscapeHTML(false)), which appends a newline: the document minus its last byte is complete JSON.",
   "exactly one cut: prefix length len-1 is accepted by Import"),
+ # ---- batch 5 ----
+ ("C01-redis-dedup-sentinel-zero", "C01", "/tmp/wt5-C01", 1, ["C01"],
+  "The Redis branch of BloomFilter.Insert drops a probe that repeats the previous index, with the sentinel starting at 0: a first probe at bit 0 is never written.",
+  "Redis-backed filter of size 1, or an element whose first probe is bit 0"),
+ ("C01-insertstring-bypasses-lock", "C01", "/tmp/wt5-C01", 2, ["C07", "C01"],
+  "InsertString calls the unlocked helper insertHashes directly.",
+  "two goroutines inserting into one in-memory filter, one through InsertString: bits lost in a shared word"),
+ ("C03-redis-count-allsum-fast-path", "C03", "/tmp/wt5-C03", 1, ["C09", "C12", "C03"],
+  "CountMinSketchRedis.Count returns 0 when the handle-local allSum is 0.",
+  "a reader handle attached by metadata key, or a fresh sketch after Merge(populated): Count is 0 for everything"),
+ ("C03-mem-import-keeps-old-columns", "C03", "/tmp/wt5-C03", 2, ["C10", "C03"],
+  "CountMinSketch.Import no longer sets cms.columns.",
+  "import of a document of another width: positions are reduced modulo the old width"),
+ ("C05-redis-update-false-on-zero", "C05", "/tmp/wt5-C05", 1, ["C05"],
+  "The Redis updateRegisters script returns false when the count byte is 0: Update reports an error (redis: nil).",
+  "Redis backend, an element whose count byte is 0 (about 1 in 256); only visible if the Update error is checked"),
+ ("C05-redis-count-flags-swapped", "C05", "/tmp/wt5-C05", 2, ["C05", "C08"],
+  "HyperLogLogRedis.Count passes its two bool arguments to getEstimation in the wrong order.",
+  "Count(false, true) or Count(true, false) with a fractional part >= 0.5"),
+ ("C06-index-memo-keeps-callers-slice", "C06", "/tmp/wt5-C06", 1, ["C06"],
+  "getRegisterIndexAndCount memoises the last key but keeps the caller's slice.",
+  "consecutive different keys of equal length through one reused buffer"),
+ ("C06-mem-merge-locks-both", "C06", "/tmp/wt5-C06", 2, ["C06"],
+  "In-memory Merge takes h.lock.Lock() and g.lock.RLock(), both deferred.",
+  "h.Merge(h) self-deadlocks; concurrent a.Merge(b) / b.Merge(a) deadlock on opposite lock order"),
+ ("C07-cms-writeto-unlocks-per-row", "C07", "/tmp/wt5-C07", 1, ["C07"],
+  "CountMinSketch.WriteTo releases the lock around each row's binary.Write.",
+  "an Update between two row writes: a torn stream that matches no sequential state (no data race)"),
+ ("C07-bloom-insert-lock-condition", "C07", "/tmp/wt5-C07", 2, ["C07"],
+  "BloomFilter.Insert locks when metadataKey == \"\" instead of isBitSetMem(filter).",
+  "an in-memory bitset with a non-empty metadata key (NewBloomFilterWithBitSet): Insert runs unlocked"),
+ ("C09-bloom-attach-writes-back", "C09", "/tmp/wt5-C09", 1, ["C16", "C09"],
+  "fromRedisKey writes back the bitset string it has just read.",
+  "an Insert between the attach's read and its write-back is erased for all handles"),
+ ("C09-bloom-attach-size-in-bytes", "C09", "/tmp/wt5-C09", 2, ["C09"],
+  "fromRedisKey takes the size as the byte length, and FromKey goes through the validating constructor.",
+  "filters made by NewRedisBloomFilterFromBitSet (or after importing such an export) can no longer be re-attached"),
+ ("C10-bloom-export-bitset-size", "C10", "/tmp/wt5-C10", 1, ["C10", "C09"],
+  "BloomFilter.Export writes the size returned by the bitset as m instead of the filter's size.",
+  "Export through a re-attached Redis handle (8x size), or NewMemBloomFilterFromBitSet(nil, k)"),
+ ("C10-redis-setmatrix-chunks", "C10", "/tmp/wt5-C10", 2, ["C10"],
+  "The Redis setMatrix script pushes 1024-value slices with `while first < columns`.",
+  "widths of 1 modulo 1024 (1, 1025, 2049): the last column of every imported row is lost"),
+ ("C11-bloom-writeto-recomputed-count", "C11", "/tmp/wt5-C11", 1, ["C11"],
+  "BitSetMem.writeTo recomputes the byte count as (2 + size/64 + 1) * 8.",
+  "filter sizes that are multiples of 64: WriteTo over-reports by 8 bytes"),
+ ("C11-topk-writeto-sketch-count", "C11", "/tmp/wt5-C11", 2, ["C11"],
+  "TopK.WriteTo writes each heap entry's frequency as sketch.Count(value) instead of the stored one.",
+  "a tracked element whose cells were raised by a later colliding element"),
+ ("C12-mem-conservative-update", "C12", "/tmp/wt5-C12", 1, ["C12", "C03"],
+  "In-memory Update raises only cells below min+count (conservative update): cells are no longer linear in the stream.",
+  ">= 2 rows, x sharing its row-0 cell with y and its row-1 cell with another key, x in A and the others in B"),
+ ("C12-redis-merge-deferred-allsum", "C12", "/tmp/wt5-C12", 2, ["C12"],
+  "CountMinSketchRedis.Merge adds the argument's allSum in a defer that also runs on the error returns.",
+  "a merge rejected for unequal dimensions changes the receiver's exported total"),
+ ("C13-redis-remove-early-exit-when-free", "C13", "/tmp/wt5-C13", 1, ["C13"],
+  "CuckooFilterRedis.Remove returns false without probing the second bucket when the first one is free.",
+  "an element in its second bucket while its first bucket has room again"),
+ ("C13-mem-remove-bucket-value-copy", "C13", "/tmp/wt5-C13", 2, ["C13"],
+  "CuckooFilter.Remove works on a value copy of the bucket: the slot is cleared, the bucket's counter never decremented.",
+  "capacity leaks: counters no longer match slots; an emptied filter is not Equal to a new one"),
+ ("C16-cuckoo-attach-rewrites-metadata", "C16", "/tmp/wt5-C16", 1, ["C16"],
+  "NewCuckooFilterRedisFromKey writes the metadata (incl. length) back after reading it.",
+  "an HINCRBY of a concurrent Insert between the attach's HGETALL and HSET is lost"),
+ ("C16-cms-redis-shared-key-buffer", "C16", "/tmp/wt5-C16", 2, ["C16"],
+  "The KEYS slice of the update/count scripts is a buffer stored in the handle.",
+  "goroutines sharing one handle, cold script cache: the EVAL after NOSCRIPT re-reads the buffer another Update has refilled"),
+ ("C17-topk-redis-compare-half", "C17", "/tmp/wt5-C17", 1, ["C17"],
+  "compareHeaps loops to size instead of 2*size over the WITHSCORES reply: only the lower half of the set is compared.",
+  "equal sketches, heaps differing only in the upper half"),
+ ("C17-cuckoo-equals-as-sets", "C17", "/tmp/wt5-C17", 2, ["C17"],
+  "In-memory CuckooFilter.Equals compares buckets as sets, one direction.",
+  "a bucket holding a duplicated fingerprint: x,x,y vs x,y,y equal; x,x vs x,y asymmetric"),
 ]
 
 
